@@ -1,6 +1,7 @@
 #include "static_variants.hpp"
 namespace {
 #if VF_GROUP == 0
+VF_BUCKET_HUGE(uint32_t, 4, 128, 32, float);
 VF_BUCKET(uint32_t, 4, 128, 32, float);
 VF_BUCKET(uint64_t, 1, 4096, 0, float);
 #endif
